@@ -3,7 +3,9 @@
 #define VG_TMAP_PRE_H
 #include <stdint.h>
 #include <stddef.h>
+#ifndef VG_TMAP_MAX
 #define VG_TMAP_MAX (1ull << 24)          /* stated bound on the number of UTC entries (object size) */
+#endif
 #define VG_TMAP_VAL (1ll << 61)           /* stated bound on sample ids / timestamps: differences do not overflow int64 */
 #define VG_TMAP_SPAN (1ll << 50)          /* stated bound on the difference between neighbouring entries: exact in double */
 extern size_t vg_i;                        /* skolem witness: an arbitrary entry index */
